@@ -20,6 +20,11 @@ mod xchg;
 
 use udp::{Ev, UdpCase, Q};
 
+/// known-finding classes (known-findings.json); mirrored by `UdpMatch.endsUndecodable` / `endsCaseMismatch`
+/// and `queryEndClass` in the Lean model, whose verdict is part of the compared output line (`k=`)
+const CLASS_UNDECODABLE: &str = "C16.udp-query-ended-by-undecodable-or-nonresponse-datagram-from-queried-address";
+const CLASS_CASE: &str = "C16.udp-query-ended-by-case-mismatched-reply";
+
 /// state threaded through the lines of a multiplexer block
 #[derive(Default)]
 pub struct Ctx {
@@ -226,12 +231,53 @@ fn exec_udp(line: &str, t: &[&str], rec: &mut Recorder) {
             return;
         }
     }
+    // Which scripted event ended the query, by the script and the clock alone: the last event a
+    // transmission consumed, arriving exactly when the query ended in an error.  If it is the 1st or 2nd
+    // datagram of its transmission and does not match the query, it was not skipped (a skip would have
+    // kept the transmission waiting); on the 3rd the transmission is over either way.
+    let interval = c.retry_interval.max(c.floor);
+    let mut ender: Option<(usize, usize)> = None;
+    if run.outcome == "err" {
+        for (t, (sc, n)) in c.scripts.iter().zip(&run.consumed).enumerate() {
+            if *n >= 1 && *n <= sc.len() {
+                let at: u64 = t as u64 * interval
+                    + sc[..*n].iter().map(|e| match e { Ev::E { delay } | Ev::D { delay, .. } => *delay }).sum::<u64>();
+                if at == run.end_time {
+                    ender = Some((t, *n - 1));
+                    break;
+                }
+            }
+        }
+    }
+    // (token for the output line, known-finding class, description)
+    let mut not_skipped: Option<(&'static str, &'static str, String)> = None;
+    if let Some((t, j)) = ender {
+        if j + 1 < 3 {
+            if let Some(why) = udp::mismatch(&c, &c.scripts[t][j]) {
+                match why {
+                    "not a datagram" => {} // recv_from error: not a datagram, a failed socket
+                    "unparsable" | "not a response" => {
+                        not_skipped = Some(("undecodable", CLASS_UNDECODABLE, format!("datagram {t}.{j} ({why}, from the queried address and port) ended the query with an error instead of being skipped")))
+                    }
+                    "letter case differs with case randomisation on" => {
+                        not_skipped = Some(("case", CLASS_CASE, format!("datagram {t}.{j} (reply with right source and id whose question differs in letter case only, case randomisation on) ended the query with an error instead of being skipped")))
+                    }
+                    _ => not_skipped = Some(("other", "", format!("datagram {t}.{j} ({why}) ended the query with an error instead of being skipped"))),
+                }
+            }
+        }
+    }
     let out = format!(
-        "{} c={}",
+        "{} c={} k={}",
         run.outcome,
-        run.consumed.iter().map(|x| x.to_string()).collect::<Vec<_>>().join(",")
+        run.consumed.iter().map(|x| x.to_string()).collect::<Vec<_>>().join(","),
+        not_skipped.as_ref().map(|x| x.0).unwrap_or("-")
     );
     let idx = rec.case(line.to_string(), out);
+    if let Some((tok, class, what)) = &not_skipped {
+        rec.stat(&format!("udp.not-skipped.{tok}"));
+        rec.fail(idx, what.clone(), class);
+    }
     rec.stat("op.udp");
     rec.stat(&format!("udp.outcome.{}", run.outcome.split(' ').next().unwrap()));
     rec.stat(&format!("udp.transmissions.{}", run.consumed.len()));
@@ -258,18 +304,6 @@ fn exec_udp(line: &str, t: &[&str], rec: &mut Recorder) {
     }
     if !run.all_sent_to_server {
         rec.fail(idx, "a transmission went to an address other than the queried server", "");
-    }
-    // skipped-vs-failed census: the property says non-matching datagrams are "skipped"; the code ends the
-    // transmission (and with it the query) on some kinds coming from the queried address.  Counted, see
-    // checks/C16.json "partial" and theorem examineD_fail_iff; never accepted, which is what the oracle demands.
-    if run.outcome == "err" {
-        for (sc, n) in c.scripts.iter().zip(&run.consumed) {
-            if *n >= 1 && *n < 3 {
-                if let Some(why @ ("unparsable" | "not a response" | "letter case differs with case randomisation on")) = udp::mismatch(&c, &sc[*n - 1]) {
-                    rec.stat(&format!("udp.query-ended-by-nonmatching-datagram.{}", why.replace(' ', "-")));
-                }
-            }
-        }
     }
     // non-trivial: something forged was examined, or a reply was accepted after at least one other datagram
     let forged_examined = c.scripts.iter().zip(&run.consumed).any(|(sc, n)| sc.iter().take(*n).any(|e| udp::mismatch(&c, e).is_some()));
